@@ -351,6 +351,113 @@ def check_opcodes(chk: core.Check) -> None:
         chk.broke("translation", {"JournalOperation": real, "model_assumes": OPCODES})
 
 
+def threaded_snapshot(chk: core.Check, rounds: int) -> None:
+    """Several THREADS share one JournalStorage on a snapshot-capable backend (fakeredis) and create trials across an id that
+    is a multiple of the snapshot interval, so a snapshot is pickled while other threads' syncs go on.  Every snapshot that
+    was saved must describe a log prefix: a fresh worker that starts from the saved snapshot and replays the tail must see
+    exactly what a worker replaying the whole log sees (trial ids, numbers, states)."""
+    import sys
+    import threading as _th
+
+    import fakeredis
+    import optuna
+    from optuna.storages import JournalStorage
+    from optuna.storages.journal import JournalRedisBackend
+    from optuna.study import StudyDirection
+
+    old_switch = sys.getswitchinterval()
+    sys.setswitchinterval(1e-5)
+    try:
+        for it in range(rounds):
+            server = fakeredis.FakeServer()
+
+            def mk() -> Any:
+                b = JournalRedisBackend("redis://localhost")
+                b._redis = fakeredis.FakeStrictRedis(server=server)
+                return JournalStorage(b)
+
+            shared = mk()
+            saved: list[bytes] = []
+            real_save = shared._backend.save_snapshot
+
+            def recording_save(snapshot: bytes, _real: Any = real_save, _saved: list[bytes] = saved) -> None:
+                _saved.append(snapshot)
+                _real(snapshot)
+
+            shared._backend.save_snapshot = recording_save  # type: ignore[method-assign]
+            sid = shared.create_new_study([StudyDirection.MINIMIZE], "s")
+            # finished template trials with parameters: pickling them runs Python-level __reduce_ex__ code (enums,
+            # distributions), i.e. offers thread switch points in the middle of a snapshot
+            tmpl = optuna.trial.create_trial(params={"x": 0.5, "c": "a"}, value=0.25, user_attrs={"k": -1},
+                                             distributions={"x": optuna.distributions.FloatDistribution(0.0, 1.0),
+                                                            "c": optuna.distributions.CategoricalDistribution(["a", "b"])})
+            for _ in range(93 + it % 5):
+                shared.create_new_trial(sid, tmpl)
+            errs: list[str] = []
+            progress = [0]
+
+            def work() -> None:
+                try:
+                    for j in range(55):
+                        t = shared.create_new_trial(sid, tmpl if j % 2 else None)
+                        progress[0] += 1
+                        if j % 2 == 0:
+                            shared.set_trial_user_attr(t, "k", 1)
+                except Exception as e:  # noqa: BLE001
+                    errs.append("%s: %s" % (type(e).__name__, str(e)[:120]))
+
+            # the snapshot is pickled through a proxy that first gives the OTHER threads 50 ms to get a whole
+            # create_new_trial through: impossible while the pickling thread holds the storage's lock (as it does today)
+            import pickle as _pickle
+            import time as _time
+
+            import optuna.storages.journal._storage as _js
+
+            class _PickleProxy:
+                def __getattr__(self, name: str) -> Any:
+                    return getattr(_pickle, name)
+
+                def dumps(self, obj: Any, *a: Any, **k: Any) -> bytes:
+                    before, deadline = progress[0], _time.time() + 0.05
+                    while progress[0] == before and _time.time() < deadline:
+                        _time.sleep(0.001)
+                    return _pickle.dumps(obj, *a, **k)
+
+            saved_pickle = _js.pickle
+            _js.pickle = _PickleProxy()  # type: ignore[assignment]
+            ths = [_th.Thread(target=work) for _ in range(4)]
+            try:
+                for t in ths:
+                    t.start()
+                for t in ths:
+                    t.join(120)
+            finally:
+                _js.pickle = saved_pickle
+            chk.case({"part": "threaded-snapshot", "it": it, "snapshots": len(saved)}, nontrivial=len(saved) > 0)
+            chk.count("threaded-snapshot")
+            chk.count("threaded-snapshot:snapshots-saved", len(saved))
+            if errs:
+                chk.violation({"kind": "threaded-snapshot-raised"}, {"part": "threaded-snapshot", "errors": errs[:3]}, "threads sharing one JournalStorage raised: %s" % errs[0])
+                return
+            plain = mk()
+            plain._backend.load_snapshot = lambda: None  # type: ignore[method-assign]
+            full = JournalStorage(plain._backend)  # replays the whole log
+            b = [(t._trial_id, t.number, int(t.state)) for t in full.get_all_trials(sid, deepcopy=False)]
+            for si, snap in enumerate(saved):
+                w = mk()
+                w._backend.load_snapshot = lambda _s=snap: _s  # type: ignore[method-assign]
+                from_snapshot = JournalStorage(w._backend)     # starts from THIS snapshot and replays the tail
+                a = [(t._trial_id, t.number, int(t.state)) for t in from_snapshot.get_all_trials(sid, deepcopy=False)]
+                if a != b:
+                    d = next((i for i, (x, y) in enumerate(zip(a, b)) if x != y), min(len(a), len(b)))
+                    chk.violation({"kind": "snapshot-plus-tail-differs", "scenario": "threaded-snapshot"}, {"part": "threaded-snapshot", "it": it, "snapshot": si},
+                                  "journal over a snapshot backend, 4 threads on one storage: a worker restored from saved snapshot #%d + tail sees %d trials, a full replay %d; first difference at position %d: %s / %s" % (
+                                      si, len(a), len(b), d, a[d:d + 2], b[d:d + 2]))
+                    return
+    finally:
+        sys.setswitchinterval(old_switch)
+
+
 def search(chk: core.Check) -> None:
     """Failing-input search after a breakage: many more histories, property oracle only matters."""
     chk.search_log.append("searching 3x more histories for a real-vs-real divergence")
@@ -375,6 +482,7 @@ def main(chk: core.Check) -> int:
         c06_front.replay_witnesses(chk)
     except core.DriverBroken as e:
         chk.broke("correspondence", {"driver": str(e)[:800]})
+    threaded_snapshot(chk, 4 if chk.tier == "quick" else 40)
     c06_redis.correspond(chk, chk.tier)  # the Redis backend command by command against Model/JournalRedis.lean
     chk.assumptions += ["pickle round trip of JournalStorageReplayResult is faithful (exercised, not proved)",
                         "fakeredis stands for Redis", "the model consumes the records as re-encoded by rec_to_driver (floats -> exact rationals)"]
